@@ -1292,6 +1292,13 @@ class H2Stream:
         # way through must not have touched the compression context.
         headers = list(headers)
 
+        # The same goes for text the encoder cannot turn into bytes: find out
+        # before it has added the fields in front of it to its dynamic table.
+        for header in headers:
+            for field in header[0:2]:
+                if isinstance(field, str):
+                    field.encode('utf-8')
+
         encoded_headers = encoder.encode(headers)
 
         # Slice into blocks of max_outbound_frame_size. We never send padded
